@@ -125,7 +125,9 @@ def csd(s, window=None, detrend='linear'):
 
 
 def csd_to_signal(csd):
-    n = 2 * (len(csd) - 1)
+    # Number of samples of the (even-length) signal; the spectrum lies along
+    # the last axis, also for batches.
+    n = 2 * (np.shape(csd)[-1] - 1)
     scale = 2 / n / np.sqrt(2)
     return np.fft.irfft(csd / scale, axis=-1)
 
